@@ -630,11 +630,86 @@ fn stream_b_case(groups: &[(i64, Vec<V>)], model: &mut model::Model, rep: &mut R
             }
         }
     }
+    // further row-path forms: the integer answer must be the exact value, never a partial sum
+    {
+        let exact_of = |vs: &Vec<V>, distinct: bool| -> (i128, usize) {
+            let mut seen = std::collections::BTreeSet::new();
+            let mut sum = 0i128;
+            let mut n = 0usize;
+            for v in vs {
+                if let V::I(i) = v {
+                    if !distinct || seen.insert(*i) {
+                        sum += *i as i128;
+                        n += 1;
+                    }
+                }
+            }
+            (sum, n)
+        };
+        let forms: [(&str, bool, bool); 4] = [
+            ("SELECT g, SUM(DISTINCT a) FROM s GROUP BY g", true, false),
+            ("SELECT g, SUM(a) FROM s GROUP BY g HAVING COUNT(*) >= 0", false, false),
+            ("SELECT g, SUM(a) FROM s WHERE a IS NOT NULL GROUP BY g", false, false),
+            ("SELECT g, AVG(a) FROM s GROUP BY g", false, true),
+        ];
+        for (q, distinct, is_avg) in forms {
+            let o = db.exec(q);
+            rep.count("B_extra_grouped_forms");
+            match &o {
+                Out::Panic(p) => rep.fail(FailKind::Oracle, None, &format!("panic in a grouped aggregate: {} @ {}", p, last_panic()), &format!("{}{};", script(), q)),
+                Out::Rows(rows) => {
+                    for r in rows {
+                        let g = match of_sql(&r[0]) {
+                            Some(V::I(g)) => g,
+                            _ => continue,
+                        };
+                        let vs = match groups.iter().find(|x| x.0 == g) {
+                            Some(x) => &x.1,
+                            None => continue,
+                        };
+                        let (sum, n) = exact_of(vs, distinct);
+                        if n == 0 {
+                            continue;
+                        }
+                        let shown = canon::val(&r[1]);
+                        if shown == "N" {
+                            continue; // NULL after an overflow, as documented
+                        }
+                        let ok = if is_avg {
+                            // AVG is a float: compare against the exact quotient with a relative tolerance
+                            let want = sum as f64 / n as f64;
+                            let have: Option<f64> = match &r[1] {
+                                SqlValue::Double(f) | SqlValue::Numeric(f) => Some(*f),
+                                SqlValue::Float(f) | SqlValue::Real(f) => Some(*f as f64),
+                                SqlValue::Integer(i) | SqlValue::Bigint(i) => Some(*i as f64),
+                                _ => None,
+                            };
+                            match have {
+                                Some(h) => (h - want).abs() <= 1e-6 * want.abs().max(1.0),
+                                None => false,
+                            }
+                        } else {
+                            shown.strip_prefix('I').and_then(|x| x.parse::<i128>().ok()) == Some(sum)
+                        };
+                        if !ok {
+                            rep.fail(
+                                FailKind::Oracle,
+                                None,
+                                "grouped SUM/AVG returned a number that is not the exact value (a partial or wrapped sum)",
+                                &format!("{}{};\n-- group {}: engine {} exact sum {} over {} values", script(), q, g, shown, sum, n),
+                            );
+                        }
+                    }
+                }
+                _ => {}
+            }
+        }
+    }
     // ungrouped (columnar path): direct oracle only
     let all: Vec<V> = groups.iter().flat_map(|g| g.1.iter().cloned()).collect();
     let exact_sum: i128 = all.iter().filter_map(|v| if let V::I(i) = v { Some(*i as i128) } else { None }).sum();
     let n_int = all.iter().filter(|v| matches!(v, V::I(_))).count();
-    for q in ["SELECT SUM(a) FROM s", "SELECT AVG(a) FROM s", "SELECT SUM(a) FROM s WHERE g >= 0"] {
+    for q in ["SELECT SUM(a) FROM s", "SELECT AVG(a) FROM s", "SELECT SUM(a) FROM s WHERE g >= 0", "SELECT SUM(DISTINCT a) FROM s", "SELECT SUM(a) FROM s HAVING COUNT(*) >= 0", "SELECT SUM(a + 0) FROM s"] {
         let o = db.exec(q);
         // (the former finding C24/columnar-avg-overflow is repaired by 5283a9b3: nothing is classified)
         let sig: Option<&str> = None;
@@ -644,11 +719,12 @@ fn stream_b_case(groups: &[(i64, Vec<V>)], model: &mut model::Model, rep: &mut R
                 rep.count("B_ungrouped_panic");
                 rep.fail(FailKind::Oracle, sig, &format!("panic in an aggregate without GROUP BY: {} @ {}", p, last_panic()), &format!("{}{};", script(), q));
             }
-            Out::Rows(r) if q == "SELECT SUM(a) FROM s" && r.len() == 1 && n_int > 0 => {
-                // the columnar path reports SUM as a double: compare where a double is exact
+            Out::Rows(r) if (q == "SELECT SUM(a) FROM s" || q == "SELECT SUM(a) FROM s WHERE g >= 0" || q.contains("HAVING")) && r.len() == 1 && n_int > 0 => {
+                // an exact-integer answer must be the exact sum (a double answer is compared where doubles are exact)
                 let shown = canon::val(&r[0][0]);
                 if let Some(num) = shown.strip_prefix('I') {
-                    if num.parse::<i128>().ok() != Some(exact_sum) && exact_sum.abs() < (1i128 << 53) {
+                    let is_int = matches!(&r[0][0], SqlValue::Integer(_) | SqlValue::Bigint(_));
+                    if num.parse::<i128>().ok() != Some(exact_sum) && (is_int || exact_sum.abs() < (1i128 << 53)) {
                         rep.fail(FailKind::Oracle, sig, "SUM without GROUP BY returned a number that is not the exact sum", &format!("{}{};\n-- engine {} exact {}", script(), q, shown, exact_sum));
                     }
                 }
@@ -674,6 +750,11 @@ fn stream_b(args: &Args, rng: &mut Rng, model: &mut model::Model, rep: &mut Repo
     stream_b_case(&[(1, vec![V::I(MAXI), V::I(1), V::I(-5)]), (2, vec![V::Null])], model, rep);
     stream_b_case(&[(1, vec![V::I(MINI), V::I(-1)]), (2, vec![V::I(MAXI), V::I(MINI), V::I(MAXI)])], model, rep);
     stream_b_case(&[(1, vec![V::I(MAXI), V::I(MAXI)])], model, rep);
+    // the running total leaves the range strictly before the last row: NULL (sticky), never a restarted partial sum
+    stream_b_case(&[(1, vec![V::I(MAXI), V::I(1), V::I(5), V::I(6), V::I(7)])], model, rep);
+    stream_b_case(&[(1, vec![V::I(MINI), V::I(-1), V::I(-100)]), (2, vec![V::I(MINI), V::I(-1), V::I(-100), V::I(-200)])], model, rep);
+    stream_b_case(&[(1, vec![V::I(5), V::I(MAXI), V::I(MAXI), V::I(3), V::Null, V::I(4)]), (2, vec![V::I(1), V::I(2)])], model, rep);
+    stream_b_case(&[(0, vec![V::I(MAXI - 1), V::I(1), V::I(1), V::I(10), V::I(20)])], model, rep);
     stream_b_case(&[(1, vec![V::I(1 << 53), V::I(1), V::I(1)])], model, rep);
     let n = args.n(60, 2500);
     for _ in 0..n {
